@@ -68,7 +68,19 @@ def seed_nested():
     return s
 
 
-SEEDS = [("flat", seed_flat), ("src", seed_src), ("layered", seed_layered), ("nested", seed_nested)]
+def seed_optional_tree():
+    """The documented Server-optional tree: its only top-level variant has a UID that differs from its id."""
+    s = seed_flat()
+    s["variants"] = [vspec("optional", "optional", uid="Server-optional",
+                           paths={"packages": "Packages", "repository": ".", "debug_repository": "debug"})]
+    s["images"] = {}
+    s["stage2"] = {"mainimage": None, "instimage": None}
+    s["checksums"] = {"repodata/repomd.xml": ["sha256", "e" * 64]}
+    return s
+
+
+SEEDS = [("flat", seed_flat), ("src", seed_src), ("layered", seed_layered), ("nested", seed_nested),
+         ("optional-tree", seed_optional_tree)]
 
 
 def walk(variants, depth=1, parent=None):
